@@ -114,11 +114,20 @@ class Tracer:
         mods = [_audit, _general, _numpy, _persist, _scipy, _sklearn, _visualize, _quantile_forest, _general_v0, _numpy_v0, _numpy_v1]
         tr = self
 
+        import numpy as _np
+
         def wrap(orig):
             def w(module, name, *a, **k):
                 if tr.on:
                     tr.events.append(("R", module, name))
-                return orig(module, name, *a, **k)
+                res = orig(module, name, *a, **k)
+                # a numpy.random attribute named by the archive: if it is not a bit generator class, report any call of it
+                if tr.on and module == "numpy.random" and callable(res) and not (isinstance(res, type) and issubclass(res, _np.random.BitGenerator)):
+                    def called(*aa, **kk):
+                        tr.events.append(("C", "numpy.random", name))
+                        return res(*aa, **kk)
+                    return called
+                return res
             return w
         for m in mods:
             for fn in ("gettype", "_import_obj"):
@@ -166,7 +175,9 @@ def fmt_short(v):
 def canon_events(evs):
     out = []
     for e in evs:
-        if e[0] == "R":
+        if e[0] == "C":
+            continue        # calls are reported separately (load_calls), they are not resolutions
+        elif e[0] == "R":
             if e[1] == "numpy.random":
                 out.append("M:numpy.random|*")
             else:
@@ -309,6 +320,7 @@ def mode_inspect(cases):
                     rec["load"] = "err:" + exc_enum(e)
                     rec["load_exc"] = type(e).__name__
         rec["load_events"] = canon_events(tr.events)
+        rec["load_calls"] = [f"{e[1]}.{fmt_short(e[2])}" for e in tr.events if e[0] == "C"]
         rec["load_imports"] = list(tr.imports)
         rec["load_ledger"] = [list(x) for x in builtins._verif_ledger]
         if case.get("entry"):
